@@ -597,3 +597,89 @@ func init() {
 		return runDriver(cc, modulePath+"/inprocgrpc", inprocClientStreamDriver, res)
 	}
 }
+
+const httpHandlerCtxErrDriver = `package httpgrpc
+
+import (
+	"context"
+	"net/http"
+	"net/http/httptest"
+	"net/url"
+	"testing"
+
+	"google.golang.org/grpc"
+	"google.golang.org/grpc/codes"
+	"google.golang.org/grpc/status"
+	"google.golang.org/protobuf/types/known/emptypb"
+)
+
+// A handler that itself returns a context error (for instance ctx.Err() of a
+// timer of its own): the caller must see the matching Canceled /
+// DeadlineExceeded code, on the unary and on the streaming path.
+func TestZZGovcReplay(t *testing.T) {
+	for _, ce := range []error{context.DeadlineExceeded, context.Canceled} {
+		ce := ce
+		want := codes.DeadlineExceeded
+		if ce == context.Canceled {
+			want = codes.Canceled
+		}
+		mux := http.NewServeMux()
+		mux.Handle("/svc/U", HandleMethod(struct{}{}, "svc", &grpc.MethodDesc{MethodName: "U", Handler: func(srv interface{}, ctx context.Context, dec func(interface{}) error, _ grpc.UnaryServerInterceptor) (interface{}, error) {
+			var in emptypb.Empty
+			if err := dec(&in); err != nil {
+				return nil, err
+			}
+			return nil, ce
+		}}, nil))
+		mux.Handle("/svc/S", HandleStream(struct{}{}, "svc", &grpc.StreamDesc{StreamName: "S", ServerStreams: true, Handler: func(srv interface{}, ss grpc.ServerStream) error {
+			var in emptypb.Empty
+			if err := ss.RecvMsg(&in); err != nil {
+				return err
+			}
+			return ce
+		}}, nil))
+		svr := httptest.NewServer(mux)
+		u, _ := url.Parse(svr.URL)
+		ch := &Channel{Transport: http.DefaultTransport, BaseURL: u}
+		if %t {
+			err := ch.Invoke(context.Background(), "/svc/U", &emptypb.Empty{}, &emptypb.Empty{})
+			if status.Code(err) != want {
+				t.Errorf("GOVC-REPLAY: VIOLATED unary handler returned %%v; the caller got %%v (code %%v), want code %%v", ce, err, status.Code(err), want)
+			}
+		} else {
+			cs, err := ch.NewStream(context.Background(), &grpc.StreamDesc{StreamName: "S", ServerStreams: true}, "/svc/S")
+			if err != nil {
+				t.Fatalf("NewStream: %%v", err)
+			}
+			if err := cs.SendMsg(&emptypb.Empty{}); err != nil {
+				t.Fatalf("SendMsg: %%v", err)
+			}
+			cs.CloseSend()
+			err = cs.RecvMsg(&emptypb.Empty{})
+			if status.Code(err) != want {
+				t.Errorf("GOVC-REPLAY: VIOLATED stream handler returned %%v; the caller's RecvMsg got %%v (code %%v), want code %%v", ce, err, status.Code(err), want)
+			}
+		}
+		svr.Close()
+	}
+}
+`
+
+func init() {
+	for _, unary := range []bool{true, false} {
+		unary := unary
+		unit := "httpgrpc.handleStream.return"
+		if unary {
+			unit = "httpgrpc.handleMethod.return"
+		}
+		replayDrivers[unit] = func(cc *checkCtx, rec *obRecord, f *Failure) map[string]interface{} {
+			res := map[string]interface{}{"attempted": false}
+			if !strings.Contains(rec.o.Name, "a_handlers_context_error_has_the_matching_code") {
+				res["reason"] = "no replay scenario for this obligation"
+				return res
+			}
+			res["inputs"] = map[string]interface{}{"scenario": "handler returns context.DeadlineExceeded / context.Canceled; real HandleMethod/HandleStream behind httptest, real Channel as client"}
+			return runDriver(cc, modulePath+"/httpgrpc", fmt.Sprintf(httpHandlerCtxErrDriver, unary), res)
+		}
+	}
+}
